@@ -107,6 +107,16 @@ def driver(plan, cfg, shell_header, replies=None):
         L.append(f'    verif::replies()["{k}"] = {v};')
     L.append('    verif::step("FinalConstruct"); try { shell.FinalConstruct(&parent); std::cout << "  OK parent=" << (enc->dzn_meta.parent ? enc->dzn_meta.parent->name : "null") << " name=" << enc->dzn_meta.name << "\\n"; } catch (const std::exception& e) { verif::failed(e.what()); }')
     L.append('    verif::flush("REC");')
+    # the accessor's return type announces the semantics: Sts<I> / Mts<I>
+    L.append('    verif::step("accessor types");')
+    for p in plan['ports']:
+        if not p['exposed']:
+            continue
+        pre = 'Requires' if p['requires'] else 'Provides'
+        call = f'shell.{pre}MultiClient{cap(p["name"])}("A")' if p['exposed']['mc'] else f'shell.{pre}{cap(p["name"])}()'
+        itf = MM.cpp_fqn(p['itf']['fqn'])
+        L.append(f'    std::cout << "  TYPE {p["name"]} " << (std::is_same_v<decltype({call}), {sf}::Mts<{itf}>> ? "Mts" : '
+                 f'std::is_same_v<decltype({call}), {sf}::Sts<{itf}>> ? "Sts" : "other") << "\\n";')
     base = 10
     for p in plan['ports']:
         if not p['exposed']:
@@ -130,6 +140,8 @@ def driver(plan, cfg, shell_header, replies=None):
         for title, e, target, lbl, b in mc_sequence(p):
             if title.startswith('mc A') and e['name'] == p['exposed']['mc']['claim']:
                 L.append(f'    verif::replies()["{p["name"]}.{e["name"]}"] = {mc_grant(p)};')
+            if title.startswith('mc A') and e['name'] == p['exposed']['mc']['release']:
+                L.append(release_raises_out_event(p, e, b))
             L.append(step_block(f'{title} {p["name"]}.{lbl}.{e["name"]}', arg_decls(e, b), call_expr(target, e, lbl), e))
     L.append('    return 0;')
     L.append('}')
@@ -161,7 +173,10 @@ def expected_trace(plan, cfg, replies=None):
     arguments in declared order, reply and out/inout values carried back; MTS in-events in dispatcher context and
     blocking, MTS requires out-events queued with copied arguments; STS pass-through)"""
     replies = replies or {}
-    out = ['STEP FinalConstruct', '  OK parent=parent name=inst', '  REC ENC constructed pump=1 runtime=1']
+    out = ['STEP FinalConstruct', '  OK parent=parent name=inst', '  REC ENC constructed pump=1 runtime=1', 'STEP accessor types']
+    for p in plan['ports']:
+        if p['exposed']:
+            out.append(f'  TYPE {p["name"]} {"Mts" if p["exposed"]["mts"] else "Sts"}')
     base = 10
     for p in plan['ports']:
         if not p['exposed']:
@@ -207,6 +222,11 @@ def expected_trace(plan, cfg, replies=None):
             outs = ','.join(show_val(f['type'], 700 + k) for k, f in enumerate(e['formals']) if f['dir'] != 'in')
             out.append(f'STEP {title} {p["name"]}.{lbl}.{e["name"]}')
             if lbl == 'in':
+                o0 = next((x for x in p['itf']['events'] if x['out']), None)
+                if e['name'] == p['exposed']['mc']['release'] and o0 is not None:
+                    # the component raises an out-event while it handles the release: the client still holds the claim
+                    oins = ','.join(show_val(f['type'], b + 5 + k) for k, f in enumerate(o0['formals']) if f['dir'] != 'out')
+                    out.append(f'  REC USER {p["name"]}@A.out.{o0["name"]}({oins}) ctx=D')
                 out.append(f'  REC ENC {p["name"]}.in.{e["name"]}({ins}) ctx=D')
                 out.append(f'  RET {ret} OUTS {outs} QUEUED 0')
                 released = released or e['name'] == p['exposed']['mc']['release']
@@ -215,6 +235,19 @@ def expected_trace(plan, cfg, replies=None):
                     out.append(f'  REC USER {p["name"]}@A.out.{e["name"]}({ins}) ctx=C')
                 out.append('  RET void OUTS  QUEUED 0')
     return out
+
+
+def release_raises_out_event(p, release, b):
+    """C++: from now on the component raises its first out-event while it handles the release event"""
+    o0 = next((x for x in p['itf']['events'] if x['out']), None)
+    if o0 is None:
+        return ''
+    params = ', '.join(f'{f["type"]}{"" if f["dir"] == "in" else "&"} {f["name"]}_' for f in release['formals'])
+    fwd = ', '.join(f'{f["name"]}_' for f in release['formals'])
+    decls = ' '.join(f'{f["type"]} o{k} = verif::Val<{f["type"]}>::make({b + 5 + k});' for k, f in enumerate(o0['formals']))
+    oargs = ', '.join(f'o{k}' for k in range(len(o0['formals'])))
+    return (f'    {{ auto orig = enc->{p["name"]}.in.{release["name"]}; enc->{p["name"]}.in.{release["name"]} = [=]({params}) mutable {{ '
+            f'{decls} enc->{p["name"]}.out.{o0["name"]}({oargs}); return orig({fwd}); }}; }}')
 
 
 def mc_grant(p):
